@@ -1,5 +1,6 @@
 import IpaVerif.Model.Util
 import IpaVerif.Model.Dp
+import IpaVerif.Model.Circuits
 import IpaVerif.Generated.C12Consts
 /-! Line-protocol handlers for property C12 (model side) and the spec-side oracle. Import-free.
 
@@ -41,6 +42,36 @@ def sampleOp (kind : String) (s p : Float) (pInt shift : Nat) (script : List Nat
       | .ok _ => done ((truncatedSample pInt shift (script.length + 1) script).map fun (a, r) => ((a : Int), r))
   | _ => "bad-request"
 
+/-! ### `dp_for_histogram`, DiscreteLaplace: three passes over `B` buckets -/
+
+/-- one `apply_laplace_noise_pass`: the generating pair draws `B` samples from its shared stream
+(`std::array::from_fn(|_i| sample_shares(rng, …))`), each placed as `(sample − n) mod 2^w`, and adds the noise
+vector to the histogram with `integer_add(noise, histogram)` (carry dropped). `none` = stream exhausted. -/
+def e2ePass (pInt shift w : Nat) (modulus : Nat) : List Nat → List Nat → Option (List Nat)
+  | [], _ => some []
+  | h :: hs, script =>
+    match truncatedSample pInt shift (script.length + 1) script with
+    | none => none
+    | some (sample, rest) =>
+      let noise := symmetricSample modulus w sample shift
+      let sum := IpaVerif.Circuits.val (IpaVerif.Circuits.integerAdd IpaVerif.Circuits.plainAlg []
+        (IpaVerif.Circuits.bitsOf w noise) (IpaVerif.Circuits.bitsOf w h)).1
+      (e2ePass pInt shift w modulus hs rest).map (sum :: ·)
+
+def e2eModel (eps delta r p : Float) (ssBits pInt w : Nat) (hist s1 s2 s3 : List Nat) : String :=
+  match oprfNew floatArith cap eps delta (2 ^ ssBits) r p with
+  | .error e => "err " ++ e.name
+  | .ok shift =>
+    match laplaceModulus w with
+    | none => "panic:assertion failed: bit_size <= 32"
+    | some modulus =>
+      match (do
+        let h1 ← e2ePass pInt shift w modulus hist s1
+        let h2 ← e2ePass pInt shift w modulus h1 s2
+        e2ePass pInt shift w modulus h2 s3) with
+      | none => "panic:script exhausted"
+      | some out => s!"{showNatList out} ok"
+
 def handle (toks : List String) : Option String :=
   match toks with
   | ["c12.oprf", eps, delta, sens, r, p] => some <| (do
@@ -57,6 +88,12 @@ def handle (toks : List String) : Option String :=
       | .ok () => pure "ok"
       | .error m => pure ("err " ++ m)).getD "bad-request"
   | ["c12.maxeps"] => some (toString IpaVerif.Generated.C12.maxEpsilonBits)
+  | ["c12.e2e", _mode, b, w, ss, _seed, eps, delta, r, p, pInt, hist, s1, s2, s3] => some <| (do
+      let hist ← parseNatList hist
+      if hist.length ≠ (← b.toNat?) then pure "bad-request" else
+      pure (e2eModel (← fl eps) (← fl delta) (← fl r) (← fl p) (← ss.toNat?) (← pInt.toNat?) (← w.toNat?) hist
+        (← parseNatList s1) (← parseNatList s2) (← parseNatList s3))).getD "bad-request"
+  | "c12.e2e-broken" :: _ => some "streams-replayed"
   | ["c12.sample", kind, s, p, pInt, shift, script] => some <| (do
       pure (sampleOp kind (← fl s) (← fl p) (← pInt.toNat?) (← shift.toNat?) (← parseNatList script))).getD "bad-request"
   | ["c12.shares", eps, delta, sens, r, p, pInt, bitSize, ov, dir, script] => some <| (do
@@ -267,6 +304,42 @@ def oracleShares (pInt bitSize ov : Nat) (dirLeft : Bool) (script : List Nat) (i
     | _, _, _ => some "unknown"
   | _ => if impl.startsWith "err" ∨ impl.startsWith "panic" then some s!"fails {impl}" else some "unknown"
 
+/-- spec side of `c12_noise_e2e`: the released bucket is the exact bucket plus the three pairwise draws, re-centred
+(`d − n`), modulo `2^w`; the draws are re-derived from the three streams by the outcome-stream reading of the
+sampler (`specTdg`), the truncation point `n` by the exact-rational law is checked separately (`c12.oprf`), here it
+is inferred from the model's constructor.  Also the weaker sampler-independent invariant: total noise ∈ [−3n, 3n]. -/
+def specDraws (pInt shift : Nat) : Nat → List Nat → Option (List Int)
+  | 0, _ => some []
+  | k + 1, script =>
+    match specTdg pInt shift script with
+    | none => none
+    | some (v, rest) => (specDraws pInt shift k rest).map ((v - (shift : Int)) :: ·)
+
+def oracleE2e (shift pInt w : Nat) (hist s1 s2 s3 : List Nat) (impl : String) : Option String :=
+  match impl.splitOn " " with
+  | [vals, fl] =>
+    match parseNatList vals, specDraws pInt shift hist.length s1, specDraws pInt shift hist.length s2, specDraws pInt shift hist.length s3 with
+    | some vals, some d1, some d2, some d3 =>
+      if fl ≠ "ok" then some "fails the released histogram is not a consistent sharing"
+      else if vals.length ≠ hist.length then some s!"fails {vals.length} buckets released, {hist.length} expected"
+      else
+        let bad := (List.range hist.length).findSome? fun i =>
+          let noise : Int := d1.getD i 0 + d2.getD i 0 + d3.getD i 0
+          let want := (((hist.getD i 0 : Nat) : Int) + noise) % ((2 ^ w : Nat) : Int)
+          let got : Int := ((vals.getD i 0 : Nat) : Int)
+          -- sampler-independent invariant: (noisy − exact) mod 2^w is within [−3n, 3n]
+          let diff := (got - ((hist.getD i 0 : Nat) : Int)) % ((2 ^ w : Nat) : Int)
+          let inBand := diff ≤ 3 * (shift : Int) ∨ diff ≥ ((2 ^ w : Nat) : Int) - 3 * (shift : Int)
+          if got ≠ want then
+            some s!"bucket {i}: exact {hist.getD i 0}, draws {d1.getD i 0}, {d2.getD i 0}, {d3.getD i 0}: released {got}, expected {want} = (exact + d1 + d2 + d3) mod 2^{w}"
+          else if ¬ inBand then some s!"bucket {i}: noise outside [-3n, 3n], n = {shift}"
+          else none
+        match bad with
+        | some why => some ("fails " ++ why)
+        | none => some "holds"
+    | _, _, _, _ => some "unknown"
+  | _ => if impl.startsWith "err" ∨ impl.startsWith "panic" ∨ impl.startsWith "timeout" then some s!"fails {impl}" else some "unknown"
+
 def oracle (toks : List String) (impl : String) : Option String :=
   match toks with
   | ["c12.oprf", eps, delta, sens, r, _p] => (do
@@ -276,6 +349,12 @@ def oracle (toks : List String) (impl : String) : Option String :=
   | ["c12.geo", p] => (do oracleSimpleCtor "geo" 0 0 (← p.toNat?) impl) <|> some "unknown"
   | "c12.noise" :: rest => (do oracleNoise (← rest.mapM String.toNat?) impl) <|> some "unknown"
   | ["c12.maxeps"] => some (if impl == toString IpaVerif.Generated.C12.maxEpsilonBits then "holds" else "fails MAX_EPSILON differs from the extracted constant")
+  | ["c12.e2e", _mode, _b, w, ss, _seed, eps, delta, r, p, pInt, hist, s1, s2, s3] => (do
+      match oprfNew floatArith cap (← fl eps) (← fl delta) (2 ^ (← ss.toNat?)) (← fl r) (← fl p) with
+      | .error _ => some "unknown"
+      | .ok shift =>
+        oracleE2e shift (← pInt.toNat?) (← w.toNat?) (← parseNatList hist) (← parseNatList s1) (← parseNatList s2) (← parseNatList s3) impl) <|> some "unknown"
+  | "c12.e2e-broken" :: why => some ("fails the pairwise PRSS streams could not be replayed: " ++ " ".intercalate why)
   | ["c12.sample", kind, _s, _p, pInt, shift, script] => (do
       oracleSample kind (← pInt.toNat?) (← shift.toNat?) (← parseNatList script) impl) <|> some "unknown"
   | ["c12.shares", _eps, _delta, _sens, _r, _p, pInt, bitSize, ov, dir, script] => (do
